@@ -126,6 +126,9 @@ class _PanelSpy(SkBase):
         self.train_print_ = _h(sorted(zip(ids, [str(v) for v in np.asarray(y)])),
                                [str(c) for c in X.columns], self.n_fits_)
         self.classes_ = np.unique(np.asarray(y))
+        # when (in simulated event order) this fit happened: no effect on predictions, but two
+        # fits of equal clones leave distinguishable pickles
+        self.fit_event_ = CTX.event
         return self
 
     def _values(self, X):
